@@ -159,8 +159,33 @@ func ffKeyRanks(keys []types.Value) map[int]bool {
 	return out
 }
 
-func ridOf(n int) page.RID { return page.RID{PageID: types.PageID(1000 + n/40), SlotNum: uint32(n % 40)} }
-func ridID(r page.RID) int { return (int(r.PageID)-1000)*40 + int(r.SlotNum) }
+// Row ids: 4 slots per page; every second page number is taken from a table of page ids around the byte boundaries of
+// the packed form (the property quantifies over any row id; seeded change C17r4-B needs a page id whose low byte is ff
+// and whose second byte is >= 80), the others are 1000 + q.
+var ridSpecialPages = []int{255, 256, 32767, 32768, 33023, 65535, 65536, 1048575, 1048576, 16777215, 16777216, 2147483646}
+
+func ridPage(q int) int {
+	if q%2 == 1 && q/2 < len(ridSpecialPages) {
+		return ridSpecialPages[q/2]
+	}
+	return 1000 + q
+}
+
+var ridPageInv = func() map[int]int {
+	m := map[int]int{}
+	for i := range ridSpecialPages {
+		m[ridSpecialPages[i]] = i*2 + 1
+	}
+	return m
+}()
+
+func ridOf(n int) page.RID { return page.RID{PageID: types.PageID(ridPage(n / 4)), SlotNum: uint32(n % 4)} }
+func ridID(r page.RID) int {
+	if q, ok := ridPageInv[int(r.PageID)]; ok {
+		return q*4 + int(r.SlotNum)
+	}
+	return (int(r.PageID)-1000)*4 + int(r.SlotNum)
+}
 
 func (x *idxEnv) keyTuple(rank int) *tuple.Tuple {
 	tm := x.s.e.Catalog().GetTableByName(x.t.name)
